@@ -1117,6 +1117,44 @@ func runC15(c *Ctx) {
 		c.hist["blind:short-inverse-found"] = len(shortInv)
 	}
 	scalarInverses(c, r, L)
+	// small-order public keys and their non-canonical encodings, blinded once and twice (two orders), and unblinded: the blinded
+	// key is pk × scalar also there (round 7: fast paths in the point formulas that mistake a torsion point for the identity)
+	{
+		torsion := []string{
+			"0100000000000000000000000000000000000000000000000000000000000000", "ecffffffffffffffffffffffffffffffffffffffffffffffffffffffffffff7f",
+			"0000000000000000000000000000000000000000000000000000000000000000", "0000000000000000000000000000000000000000000000000000000000000080",
+			"26e8958fc2b227b045c3f489f2ef98f0d5dfac05d3c63339b13802886d53fc05", "26e8958fc2b227b045c3f489f2ef98f0d5dfac05d3c63339b13802886d53fc85",
+			"c7176a703d4dd84fba3c0b760d10670f2a2053fa2c39ccc64ec7fd7792ac037a", "c7176a703d4dd84fba3c0b760d10670f2a2053fa2c39ccc64ec7fd7792ac03fa",
+			"ecffffffffffffffffffffffffffffffffffffffffffffffffffffffffffffff", "0100000000000000000000000000000000000000000000000000000000000080",
+			"eeffffffffffffffffffffffffffffffffffffffffffffffffffffffffffff7f",
+		}
+		ref := func(pk, blind, ctx []byte) []byte {
+			p := edDecodeLax(pk)
+			if p == nil {
+				return nil
+			}
+			h := sha512.Sum512(append(append(append([]byte{}, blind...), 0), ctx...))
+			k := new(big.Int).Mod(leInt(h[:32]), L)
+			return edEncode(edMul(k, *p))
+		}
+		for ti, t := range torsion {
+			for rep := 0; rep < c.Pick(3, 20); rep++ {
+				pk, b1, b2, ctx := unhx(t), r.Bytes(32), r.Bytes(32), r.Bytes([]int{0, 5, 40}[(ti+rep)%3])
+				in := map[string]any{"pk": t, "blind": hx(b1), "blind2": hx(b2), "ctx": hx(ctx)}
+				out := c.Run("c15.blind", hx(pk), hx(b1), hx(ctx))
+				c.Count("blind:torsion-key")
+				want := ref(pk, b1, ctx)
+				if !c.DirectOK(out == "ok "+hxv(want), "blinded small-order key is not pk × (SHA-512(blind ‖ 0x00 ‖ context)[0:32] mod L) (math/big reference)", in) {
+					continue
+				}
+				o12 := c.Run("c15.blind", hx(want), hx(b2), hx(ctx))
+				p2 := ref(pk, b2, ctx)
+				o21 := c.Run("c15.blind", hx(p2), hx(b1), hx(ctx))
+				c.Direct(o12 == o21 && o12 == "ok "+hxv(ref(want, b2, ctx)), "two blindings of a small-order key do not commute, or differ from the reference", in)
+				c.Run("c15.unblind", hx(want), hx(b1), hx(ctx))
+			}
+		}
+	}
 	for i := 0; i < n; i++ {
 		seed, blind, msg := r.Bytes(32), r.Bytes(32), r.Bytes([]int{0, 1, 32, 200}[i%4])
 		ctx := r.Bytes([]int{0, 1, 16, 100, 31, 32, 33, 64, 65, 95, 96, 128, 300}[i%13])
